@@ -2503,6 +2503,48 @@ func (e *E3) nonNil(v ssa.Value, b *ssa.BasicBlock, d int) bool {
 				// package-level error variable initialised with errors.New and never reassigned
 				return e.tables.NonNilErr(g)
 			}
+			// a named result spilled to a local (functions with defer): tested non-nil through another load of the same
+			// local on a dominating edge, with no store to it in between
+			if a, ok := x.X.(*ssa.Alloc); ok && b != nil {
+				for _, cd := range condsAt(b) {
+					bo, ok := cd.V.(*ssa.BinOp)
+					if !ok || (bo.Op != token.EQL && bo.Op != token.NEQ) || (bo.Op == token.NEQ) != cd.True {
+						continue
+					}
+					var tested ssa.Value
+					if isNilConst(bo.Y) {
+						tested = bo.X
+					} else if isNilConst(bo.X) {
+						tested = bo.Y
+					}
+					l2, ok := tested.(*ssa.UnOp)
+					if !ok || l2.Op != token.MUL || l2.X != ssa.Value(a) {
+						continue
+					}
+					// no store to the local between the tested load and this one: the tested load's block ends with the If, this
+					// load must come before any store to a in its own block and every block in between must be store-free
+					clean := true
+					for _, rf := range refs(a) {
+						st, isSt := rf.(*ssa.Store)
+						if !isSt || st.Addr != ssa.Value(a) {
+							continue
+						}
+						sb := st.Block()
+						if sb == x.Block() && instrIndex(st) < instrIndex(x) {
+							clean = false
+						}
+						if sb != x.Block() && sb != l2.Block() && l2.Block().Dominates(sb) && sb.Dominates(x.Block()) {
+							clean = false
+						}
+						if sb == l2.Block() && instrIndex(st) > instrIndex(l2) {
+							clean = false
+						}
+					}
+					if clean {
+						return true
+					}
+				}
+			}
 		}
 	case *ssa.Call:
 		if sc := x.Call.StaticCallee(); sc != nil {
